@@ -205,7 +205,8 @@ def flatten_cli(run, obs_path, out_name="events.ndjson"):
                                "orig": case},
                       "obs": {"post": post, "code": st["code"], "err": st["err"][:300], "touched": fname in st.get("touched", []),
                               "parsed_ok": bool(parsed.get("ok")), "records": parsed.get("records", []),
-                              "repeat_equal": bool(o.get("repeat_equal", True)), "ticks_run": st.get("ticks_run", 0)},
+                              "repeat_equal": bool(o.get("repeat_equal", True)), "ticks_run": st.get("ticks_run", 0),
+                              "tick_files": st.get("tick_files", [])},
                       "panic": ""}
                 g.write(json.dumps(ev, ensure_ascii=False) + "\n")
                 n += 1
@@ -413,6 +414,26 @@ def c07(run):
                 f.write(json.dumps(dict(c, n=6), ensure_ascii=False) + "\n")
     obs = run.drive(cases, case_timeout=600)
     flagged = run.judge("Trace_Parse", obs, env={"KV_RULES": "C07"}, chunk=20000)
+    # (5) "every command behaves identically whatever the number of CPUs": evaluation and mutating-command
+    # scenarios are replayed with several CPU counts (the context then uses the parallel parser) and judged
+    # by the same rules as with one CPU
+    def with_cpus(path, every):
+        lines = [json.loads(l) for l in open(path, encoding="utf-8") if l.strip()]
+        with open(path, "w", encoding="utf-8") as f:
+            for i, c in enumerate(lines):
+                if (i + run.seed) % every == 0:
+                    c["cpus"] = (2, 3, 4, 7, 16)[i % 5]
+                    f.write(json.dumps(c, ensure_ascii=False) + "\n")
+    ce, _ = run.mc("MC_Eval", {"KV_MODE": "total"}, out_name="cases-cpu-eval.ndjson")
+    with_cpus(ce, 3 if run.tier == "quick" else 1)
+    oe = run.drive(ce, obs_name="obs-cpu-eval.ndjson")
+    run.postprocess(oe, evalparse.postprocess)
+    flagged += run.judge("Trace_Eval", oe, env={"KV_RULES": "C02,C20"}, chunk=1500)
+    cc, _ = run.mc("MC_Cli", {"KV_MODE": "pairs"}, out_name="cases-cpu-cli.ndjson")
+    with_cpus(cc, 2 if run.tier == "quick" else 1)
+    oc = run.drive(cc, obs_name="obs-cpu-cli.ndjson")
+    ev = flatten_cli(run, oc, "events-cpu-cli.ndjson")
+    flagged += run.judge("Trace_Cli", ev, env={"KV_RULES": "C03,C04,C05"}, chunk=4000)
     run.assumptions = ["the order in which goroutines deliver their results is forced through hook H2 (all permutations up to the tier's N); "
                        "natural schedules are observed, not enumerated",
                        "natural-schedule traces are validated against the projection of KParallel on its send/receive steps"]
@@ -421,4 +442,5 @@ def c07(run):
         "{text, blank, LF, CR, 2-byte lead, continuation, invalid} and all texts of up to 5 (thorough 6) whole lines (LF/CRLF, blank, "
         "whitespace-only, unterminated) x every worker count, spec-level equivalence with serial segmentation, each "
         "text replayed into the real parsers; (3) generated documents and mutants x worker counts {2,3,5,8,13,len/2,len-1,len,len+1}; "
-        "(4) every arrival order of the batch results forced through hook H2 for N<=4 (thorough 6) and natural schedules under GOMAXPROCS 1/4/16")
+        "(4) every arrival order of the batch results forced through hook H2 for N<=4 (thorough 6) and natural schedules under GOMAXPROCS 1/4/16; "
+        "(5) evaluation files and command pairs replayed through the CLI configured with 2..16 CPUs and judged by the rules of C02/C20 and C03/C04/C05")
